@@ -49,6 +49,12 @@ def _special(rng, names):
         P.TGen("CMapping", P.T_STR, P.TBare("CList")), P.TUnion(P.TGen("CSequence", P.T_INT), P.TGen("CList", P.T_INT)),
         P.TTupV(P.TUnion(A, B)) if A != B else P.TTupV(A), P.TUnion(A, B, P.T_NONE) if A != B else P.TUnion(A, P.T_NONE),
         P.TTup(A, P.TUnion(A, B)) if A != B else P.TTup(A), P.TTupV(P.TLit(P.XInt(1))), P.TUnion(P.T_ANY, P.T_NONE),
+        # optional elements of FIXED tuples, in every position (seeded change C11-9)
+        P.TTup(P.TUnion(A, P.T_NONE)), P.TTup(A, P.TUnion(B, P.T_NONE)), P.TTup(P.TUnion(B, P.T_NONE), A),
+        P.TTup(A, P.TUnion(B, P.T_NONE), A), P.TTup(P.TUnion(P.T_NONE, A)),
+        # mutable collections below abstract containers (seeded change C11-10)
+        P.TGen("CSequence", P.TGen("CList", P.T_INT)), P.TGen("CMapping", P.T_STR, P.TGen("CDict", P.T_STR, P.T_INT)),
+        P.TTupV(P.TGen("CMapping", P.T_STR, P.TGen("CSet", P.T_INT))), P.TGen("CSequence", P.TBare("CList")),
     ])
 
 
